@@ -189,7 +189,7 @@ func main() {
 	cov := map[string]any{
 		"evaluations":         evals,
 		"distinct_nontrivial": distinct,
-		"rule":                "cases are drawn by rapid generators / enumerated as described per sub-check; a case is counted in distinct_nontrivial when it satisfies the sub-check's non-triviality rule and the 64-bit FNV hash of its canonical JSON encoding was not seen before (union over shards). " + strings.Join(rules, " | "),
+		"rule":                "cases are drawn by rapid generators / enumerated as described per sub-check; a case is counted in distinct_nontrivial when it satisfies the sub-check's non-triviality rule and the 64-bit FNV hash of its canonical JSON encoding was not seen before (union over shards; a shard stops recording new hashes after 3 million per sub-check, so very large runs under-count). " + strings.Join(rules, " | "),
 		"samples":             samples,
 		"classes":             classes,
 		"sub_checks":          subs,
